@@ -268,6 +268,19 @@ let mime_case (toks : string list) : string =
      | M.Inr m -> "M " ^ mime_fields m None
      | M.Inl M.E415 -> "M err415"
      | M.Inl M.EUnsup -> "M UNSUPPORTED-BY-MODEL")
+  | "S" :: text :: q :: ps ->
+    (* parse, then setQuality / setParam, then the text the value writes is parsed again *)
+    let ps = List.map (fun x -> match String.split_on_char '=' x with [ k; v ] -> (bytes_of_hex k, bytes_of_hex v) | _ -> ([], [])) ps in
+    (match M.parse_media (bytes_of_hex text) with
+     | M.Inr m ->
+       let m1 = if q = "-" then m else M.set_quality m (n_of_int (int_of_string q)) in
+       let m2 = List.fold_left (fun a (k, v) -> M.set_param a k v) m1 ps in
+       (match M.parse_media (M.to_string m2) with
+        | M.Inr m3 -> "S " ^ mime_fields m3 (Some (List.map fst m2.M.md_params))
+        | M.Inl M.E415 -> "S err415-rewritten"
+        | M.Inl M.EUnsup -> "S UNSUPPORTED-BY-MODEL")
+     | M.Inl M.E415 -> "S err415"
+     | M.Inl M.EUnsup -> "S UNSUPPORTED-BY-MODEL")
   | "B" :: top :: sub :: suf :: q :: ps ->
     let ps = List.map (fun x -> match String.split_on_char '=' x with [ k; v ] -> (bytes_of_hex k, bytes_of_hex v) | _ -> ([], [])) ps in
     let s = M.build_string (n_of_int (int_of_string top)) (n_of_int (int_of_string sub))
